@@ -128,7 +128,12 @@ def l1(part, r, n):
             with guarded(part, 'C18 L1 specials', dict(level='L1')):
                 num = r.choice([0, 1, 7, 42, 4294967295, r.randint(0, 10 ** 9)])
                 nb = bytes(Number(num))
+                if nb != bytes(unnats(m.ask(f'num ser {num}'))):
+                    part.violation('correspondence', f'bytes(Number({num})) = {nb!r}, Wire.digits = {m.ask(f"num ser {num}")}', dict(level='L1', number=num), signature='l1-number-ser')
                 got, after = Number.parse(nb + b' r', Params())
+                mod = m.ask('num parse ' + nats(nb + b' r'))
+                if f'{got.value} {nats(bytes(after))}' != mod:
+                    part.violation('correspondence', f'Number.parse({nb + b" r"!r}) = ({got.value}, {bytes(after)!r}), Grammar.readNum = {mod}', dict(level='L1', number=num), signature='l1-number-parse')
                 if got.value != num or bytes(after) != b' r':
                     part.violation('monitor', f'number round trip {num} -> {nb!r} -> {got.value} rest {bytes(after)!r}', dict(level='L1', number=num), signature='rt-number')
                 txt = gen.seqset(r, r.randint(1, 30)).encode()
